@@ -391,9 +391,10 @@ impl FileSpec {
         log_files
     }
 
-    // sort key for log files: name without suffix(es) and restart extension, restart number
-    // (0 if there is no restart extension), full name
-    pub(crate) fn sort_key(&self, path: &Path) -> (String, usize, PathBuf) {
+    // sort key for log files: number of digits of a purely numeric infix (numbers beyond the
+    // padded width, like r100000, are newer than all shorter ones), name without suffix(es) and
+    // restart extension, restart number (0 if there is no restart extension), full name
+    pub(crate) fn sort_key(&self, path: &Path) -> (usize, String, usize, PathBuf) {
         let name = path
             .file_name()
             .map(|s| s.to_string_lossy().to_string())
@@ -406,14 +407,18 @@ impl FileSpec {
                 .and_then(|s| s.strip_suffix('.'))
                 .unwrap_or(stem);
         }
-        match stem.split_once(".restart-") {
-            Some((base, number)) => (
-                base.to_string(),
-                number.parse::<usize>().map_or(0, |n| n + 1),
-                path.to_path_buf(),
-            ),
-            None => (stem.to_string(), 0, path.to_path_buf()),
-        }
+        let (base, restart) = match stem.split_once(".restart-") {
+            Some((base, number)) => (base, number.parse::<usize>().map_or(0, |n| n + 1)),
+            None => (stem, 0),
+        };
+        let digits = base.rsplit_once('r').map_or(0, |(_, number)| {
+            if number.bytes().all(|b| b.is_ascii_digit()) {
+                number.len()
+            } else {
+                0
+            }
+        });
+        (digits, base.to_string(), restart, path.to_path_buf())
     }
 
     // Selects the files that follow the naming pattern completely:
